@@ -19,7 +19,7 @@ Definition menu_new : menu := mkMenu mk_merged [].
 Definition add_translation (m : menu) (t : tr) : menu :=
   mkMenu (merged_add (m_res m) t (m_cache m)) (m_cache m).
 
-Inductive filt := FUniquifier | FSingleChar | FCharset.
+Inductive filt := FUniquifier | FSingleChar | FCharset | FSimplifier (conv : cand -> option (cand * list cand)).
 
 (** Menu::AddFilter: result_ = filter->Apply(result_, &candidates_) *)
 Definition add_filter (m : menu) (f : filt) : menu :=
@@ -29,6 +29,7 @@ Definition add_filter (m : menu) (f : filt) : menu :=
     | FUniquifier => mk_uniquified d (m_res m) (m_cache m)
     | FSingleChar => mk_single_char d (m_res m) (m_cache m)
     | FCharset => mk_charset d (m_res m) (m_cache m)
+    | FSimplifier conv => mk_simplified d conv (m_res m) (m_cache m)
     end in
   mkMenu t c.
 
